@@ -63,6 +63,7 @@ ASSUMPTIONS = [
     "object identity is invisible to the model, the harness builds a fresh Value for every operand occurrence",
     "SequenceValue's dataclass hash and == also cover the derived field args = unite_values(members); the model compares the members only. The two differ only when one sequence form has two flattened members (possibly the same one: an unhashable literal) that are hash-equal but not == (tuple[int, Literal[0]]) or == but not hash-equal (tuple[[1], int], tuple[list[int | str], list[str | int]]): the model's decidable class `seqArgs` (Spec/D14.lean Ty.seqArgsIrregular); pairs in that class are skipped (counted as `seqargs_skipped`) by the eq / hash / hashcoll comparisons, the unite stream still covers them",
     "IntEnum members inside container literals ((IE.X,) == (1,) in Python, hash-equal too) are outside the object model (Obj.pyEq keeps instances apart from ints): the hashcoll universe holds no IntEnum member inside a container",
+    "Annotated[...] metadata has no content in the Lean terms (`annotated t` = one fixed metadata item): AnnotatedValue with distinct metadata items, the normalisation of Annotated-in-Annotated / repeated metadata, and the constructor route MultiValuedValue(vals) against unite_values(*vals) are searched on the implementation only (`ann` stream); the raw-constructor / annotate_value call sites of value.py are pinned by annotated_construction_sites_registered",
     "TypeVarValue / TypedDict / Callable / dict-incomplete / type-guard values are outside the Lean term language (new constructors of `Ty` would touch the kernels of every other property): the substitution laws and the laws on those constructors are searched on the implementation only (`ext`, `tv`); the `tv` stream's occurrence oracle is a structural walk over the dataclass fields registered as child positions (Spec/ValueChildren.lean; fields with compare=False, default values, callbacks and derived fields are not type positions), its coverage of the Value classes is pinned by the obligations value_children_registered / registered_children_live / harness_registry_pinned / planted_children_have_planters",
 ]
 TRUSTED = ["Spec/Mem.lean validated against the CPython-isinstance reference (stream spec)"]
@@ -611,12 +612,14 @@ def run(ctx):
     hashcoll_stream(ctx)
     ext_stream(ctx)
     c14x.tv_stream(ctx)
+    c14x.ann_stream(ctx)
 
 
 def run_impl_only(ctx):
     evaluate(ctx, corpus() + gen_triples(ctx) + gen_big_triples(ctx), with_model=False)
     ext_stream(ctx)
     c14x.tv_stream(ctx)
+    c14x.ann_stream(ctx)
 
 
 def replay(ctx, data):
@@ -635,5 +638,7 @@ def replay(ctx, data):
         c14x.tv_stream(ctx, only={c["tv"] for c in cases if "tv" in c})
     if any("ext" in c for c in cases):
         ext_stream(ctx)
+    if any("ann" in c for c in cases):
+        c14x.ann_stream(ctx)
     print(json.dumps({"candidates": ctx.candidates[:3], "broken": ctx.broken[:3]}, indent=1, default=str))
     return 1 if (ctx.candidates or ctx.broken) else 0
